@@ -3,7 +3,6 @@
 
 use std::io::Write;
 use std::os::unix::io::AsRawFd;
-use std::os::unix::process::ExitStatusExt;
 use std::process::{Command, Stdio};
 use std::sync::atomic::{AtomicU64, Ordering};
 use std::time::{Duration, Instant};
@@ -32,6 +31,7 @@ pub struct CliOut {
     pub stdout: Vec<u8>,
     pub stderr: Vec<u8>,
     pub wall_ms: u64,
+    pub max_rss_kb: u64,
 }
 
 impl CliOut {
@@ -128,11 +128,21 @@ pub fn run_cli_bytes(src: &[u8], stdin: &[u8], o: &CliOpts) -> CliOut {
     cmd.stdin(Stdio::piped()).stdout(Stdio::piped()).stderr(Stdio::piped());
     let t0 = Instant::now();
     let mut child = cmd.spawn().expect("spawn CLI");
-    {
+    // the script is written by a helper thread (a script longer than the pipe capacity would block
+    // against a child that is itself blocked writing its output); a child that exits early gives
+    // EPIPE, ignored; the pipe is closed when the script is written
+    let writer = {
         let mut si = child.stdin.take().unwrap();
-        // scripts are far below the pipe capacity; a child that exits early gives EPIPE, ignored
-        let _ = si.write_all(stdin);
-    } // stdin closed here
+        if stdin.len() <= 4096 {
+            let _ = si.write_all(stdin);
+            None
+        } else {
+            let data = stdin.to_vec();
+            Some(std::thread::spawn(move || {
+                let _ = si.write_all(&data);
+            }))
+        }
+    };
     let mut so = child.stdout.take().unwrap();
     let mut se = child.stderr.take().unwrap();
     let fds = [so.as_raw_fd(), se.as_raw_fd()];
@@ -203,12 +213,29 @@ pub fn run_cli_bytes(src: &[u8], stdin: &[u8], o: &CliOpts) -> CliOut {
     if timed_out || capped {
         let _ = child.kill();
     }
-    let st = child.wait().expect("wait");
-    drop(&mut so);
-    drop(&mut se);
+    if let Some(w) = writer {
+        let _ = w.join();
+    }
+    // reap with wait4 to learn the child's peak resident set size
+    let (code, sig, max_rss_kb) = unsafe {
+        let mut st: libc::c_int = 0;
+        let mut ru: libc::rusage = std::mem::zeroed();
+        let r = libc::wait4(child.id() as libc::pid_t, &mut st, 0, &mut ru);
+        if r < 0 {
+            (None, None, 0)
+        } else if libc::WIFEXITED(st) {
+            (Some(libc::WEXITSTATUS(st)), None, ru.ru_maxrss as u64)
+        } else if libc::WIFSIGNALED(st) {
+            (None, Some(libc::WTERMSIG(st)), ru.ru_maxrss as u64)
+        } else {
+            (None, None, ru.ru_maxrss as u64)
+        }
+    };
+    drop(so);
+    drop(se);
     let _ = std::fs::remove_file(&path);
-    let (status, signal) = if timed_out || capped { (None, None) } else { (st.code(), st.signal()) };
-    CliOut { status, signal, timed_out, capped, stdout: out, stderr: err, wall_ms: t0.elapsed().as_millis() as u64 }
+    let (status, signal) = if timed_out || capped { (None, None) } else { (code, sig) };
+    CliOut { status, signal, timed_out, capped, stdout: out, stderr: err, wall_ms: t0.elapsed().as_millis() as u64, max_rss_kb }
 }
 
 pub fn run_cli(src: &str, stdin: &str, o: &CliOpts) -> CliOut {
